@@ -39,6 +39,7 @@ def run(tier, rep):
     rnd = rng("c05")
     pool = stream_corpus.payload_pool(bundle, "c05", 80)
     pool += stream_corpus.syncy_payloads(rnd, 40)
+    crcpool = stream_corpus.crc_targeted_payloads(bundle, rnd)
     tr = fe.Traces(rep)
     n = 90 if quick else 1000
     for i in range(n):
@@ -47,6 +48,8 @@ def run(tier, rep):
         sub = rnd.sample(pool, 3) if i % 4 == 0 else pool
         if i % 4 == 0:
             k = rnd.randint(5, 12)
+        if i % 5 == 2:
+            sub = crcpool + rnd.sample(pool, 4)     # frames with special CRC bytes (zeros, sync bytes, CR LF)
         frames = [frame_of(rnd.choice(sub)) for _ in range(k)]
         dm = [rnd.random() < 0.4 for _ in frames]
         if not any(dm):
